@@ -720,6 +720,21 @@ func (o *oracle) after(s *sim, sp *runSpec, pre *preState, outcome string) (stri
 		}
 	}
 
+	// ... and is not even marked Missing: presence is a matter of the key, not of the TTL or any
+	// other header field of the record it was learned from
+	if accepted && full && stateLanded {
+		stAfter, okAfter := parseObsState(stateAfter)
+		if okAfter {
+			for _, k := range pre.liveAtFetch {
+				if !hasRef(allFetched, k) || hasInt(revokedNow, k.id) {
+					continue
+				}
+				if e, ok := stAfter[k.tag]; ok && e.key.kid() == k.kid() && e.st == "M" {
+					flag(fail("autota/present/published-anchor-marked-missing", "%s state=%s", k, stateAfter))
+				}
+			}
+		}
+	}
 	if stateLanded {
 		o.stateBad = false
 	}
